@@ -27,10 +27,17 @@ def can_payload(data, ident=0x123, flags=0, ide=0, rtr=0, crc=0, crc_support=0, 
     return be(flags, 2) + be(0, 2) + be(idw, 4) + be(crcw, 4) + be(err_pos, 2) + be(dlc, 1) + be(n, 1) + bytes(data)
 
 
+# ISO 11898-1: the number of data bytes a DLC code stands for (classic CAN 0..8, CAN FD 9..15)
+DLC_LEN = [0, 1, 2, 3, 4, 5, 6, 7, 8, 12, 16, 20, 24, 32, 48, 64]
+
+
 def dlc_code(n):
-    if n <= 8:
-        return n
-    return {12: 9, 16: 10, 20: 11, 24: 12, 32: 13, 48: 14, 64: 15}.get(n, 0)
+    """the DLC code of a data field of n bytes: the smallest code whose data field holds n bytes (a length between two CAN FD
+    steps needs the next larger step); 15 — the largest code — for everything above 64"""
+    for c, size in enumerate(DLC_LEN):
+        if n <= size:
+            return c
+    return 15
 
 
 def lin_payload(data, lin_id=0x11, parity=0, checksum=0, flags=0, data_len=None):
